@@ -151,3 +151,51 @@ def free_syms(t):
 
 def app_heads(t):
     return sorted({x.f for x in subterms(t) if isinstance(x, App)})
+
+
+# ----------------------------------------------------------------------------- shared term helpers
+
+def H(t):
+    from .terms import mk_app
+    return App("H", (t,))
+
+
+def payload_of(msg):
+    from .terms import mk_app, Const
+    return mk_app("slice", (msg, Const(1), Const(None), Const(None)))
+
+
+def norm_codec(t):
+    """Apply the group-interface inverse bytes_to_scalar(scalar_to_bytes(x)) == x (C15 K2/K4:
+    mutually inverse on [0,q); x is a sampled scalar, in range by C11)."""
+    from .terms import mk_app, TupleV, DictV
+    memo = {}
+
+    def go(x):
+        k = x._key
+        if k in memo:
+            return memo[k]
+        if isinstance(x, App):
+            args = [go(a) for a in x.args]
+            kw = [(kk, go(v)) for kk, v in x.kw]
+            r = mk_app(x.f, args, kw)
+            if r.f == ".bytes_to_scalar" and len(r.args) == 2 and is_app(r.args[1], ".scalar_to_bytes") \
+                    and len(r.args[1].args) == 2 and r.args[1].args[0] == r.args[0]:
+                r = r.args[1].args[1]
+        elif isinstance(x, TupleV):
+            r = TupleV([go(a) for a in x.items], x.kind)
+        elif isinstance(x, DictV):
+            r = DictV([(kk, go(v)) for kk, v in x.items.items()])
+        else:
+            r = x
+        memo[k] = r
+        return r
+    return go(t)
+
+
+def outbound_of(cm, s):
+    """The own outbound element bytes = start() message without its constant side prefix."""
+    v = s.value
+    if is_app(v, "cat") and isinstance(v.args[0], Const) and len(v.args) == 2:
+        return v.args[0], v.args[1]
+    return None, None
